@@ -293,6 +293,72 @@ theorem withMaxCount_eq_model (q : Nat) (text : τ) (alphabet : αβ) (mc : Nat)
 
 end
 
+/-- the tables of the model: `address` has `size + 1` slots, is monotone, and its last value is the length of `pos` -/
+theorem buildIndex_bounds (size mc : Nat) (codes : List Nat) (hcodes : ∀ c ∈ codes, c < size) (c : Nat) (hc : c < size) :
+    (buildIndex size mc codes).1.length = size + 1 ∧
+    (buildIndex size mc codes).1.getD c 0 ≤ (buildIndex size mc codes).1.getD (c + 1) 0 ∧
+    (buildIndex size mc codes).1.getD (c + 1) 0 ≤ (buildIndex size mc codes).2.length := by
+  let counts := codes.foldl bump1 (List.replicate (size + 1) 0)
+  let m := counts.map (fun a => if a > mc then 0 else a)
+  let address := prescan 0 m
+  have hcl : counts.length = size + 1 := by simp [counts, length_foldl_bump1]
+  have hml : m.length = size + 1 := by simp [m, hcl]
+  have hcounts : ∀ j, counts.getD j 0 = codes.count j := by
+    intro j
+    have := getD_foldl_bump1 codes (List.replicate (size + 1) 0)
+      (by intro x hx; have := hcodes x hx; simp; omega) j
+    rw [getD_replicate_zero] at this
+    simpa [counts] using this
+  have hm : ∀ j, j < size + 1 → m.getD j 0 = if codes.count j > mc then 0 else codes.count j := by
+    intro j hj
+    simp only [m, List.getD_eq_getElem?_getD, List.getElem?_map]
+    have : counts[j]? = some (counts.getD j 0) := by
+      rw [List.getD_eq_getElem?_getD, List.getElem?_eq_getElem (by omega)]; simp
+    rw [this, hcounts j]; rfl
+  have haddr : ∀ j, j ≤ size → address.getD j 0 = (m.take j).sum := by
+    intro j hj
+    have := getD_prescan 0 m j (by omega)
+    simpa [address] using this
+  have hmc : ∀ j, j < size → m.getD j 0 = 0 ∨ m.getD j 0 = codes.count j := by
+    intro j hj; rw [hm j (by omega)]; split
+    · left; rfl
+    · right; rfl
+  have hal : address.length = size + 1 := by simp [address, length_prescan, hml]
+  have hlast : address.getLastD 0 = (m.take size).sum := by
+    rw [getLastD_eq_getD address size hal, haddr size (Nat.le_refl _)]
+  have hinit : FillInv m size [] (List.replicate (address.getLastD 0) 0, List.replicate size 0) := by
+    refine ⟨?_, List.length_replicate, fun j _ _ => ?_⟩
+    · show (List.replicate (address.getLastD 0) 0).length = _
+      rw [List.length_replicate, hlast]
+    · simp only [posFrom, List.length_nil]
+      exact ⟨getD_replicate_zero _ _, fun t ht => absurd ht (Nat.not_lt_zero _)⟩
+  obtain ⟨hl1, _, _⟩ := fillInv_fill m size address codes haddr hmc hcodes codes [] _ (by simp) hinit
+  simp only [List.length_nil] at hl1
+  refine ⟨hal, ?_, ?_⟩
+  · show address.getD c 0 ≤ address.getD (c + 1) 0
+    rw [haddr c (by omega), haddr (c + 1) (by omega)]
+    exact sum_take_mono m (by omega)
+  · show address.getD (c + 1) 0
+        ≤ (fill address 0 codes (List.replicate (address.getLastD 0) 0, List.replicate size 0)).1.length
+    rw [hl1, haddr (c + 1) (by omega)]
+    exact sum_take_mono m (by omega)
+
+/-- **`qgram_matches` as written in the source** = the model's slice of `pos`, on the tables `with_max_count` builds: the
+two reads of `address` and the slice `pos[a..b]` are in range -/
+theorem qgramMatches_eq_model {αβ ρ τ : Type} (rankNew : αβ → ρ) (getWidth : Nat) (qgramsOf : Nat → τ → List Nat)
+    (size mc : Nat) (codes : List Nat) (hcodes : ∀ c ∈ codes, c < size) (hs : size + 1 < 2 ^ 64) (c : Nat) (hc : c < size) :
+    qgramMatches rankNew getWidth qgramsOf (buildIndex size mc codes).1 (buildIndex size mc codes).2 c
+      = Res.ok (qgramMatchesModel (buildIndex size mc codes) c) := by
+  obtain ⟨h1, h2, h3⟩ := buildIndex_bounds size mc codes hcodes c hc
+  have e1 : Rs.idx (buildIndex size mc codes).1 c = Res.ok ((buildIndex size mc codes).1.getD c 0) :=
+    idx_getD _ c 0 (by omega)
+  have e2 : Rs.add 64 c 1 = Res.ok (c + 1) := Rs.add_ok (by omega)
+  have e3 : Rs.idx (buildIndex size mc codes).1 (c + 1) = Res.ok ((buildIndex size mc codes).1.getD (c + 1) 0) :=
+    idx_getD _ (c + 1) 0 (by omega)
+  have e2' : Rs.add 64 1 c = Res.ok (c + 1) := add_ok' (by omega)
+  have e4 := Rs.slice_ok (l := (buildIndex size mc codes).2) h2 h3
+  simp only [qgramMatches, e1, e2, e2', e3, e4, Res.ok_bind, Res.pure_eq_ok, qgramMatchesModel]
+
 /-- every reference code of a text over the alphabet is below the table size `2^(bits·q)` -/
 theorem fwdCodes_lt (alpha : List Nat) (q : Nat) (text : List Nat) (ht : ∀ c ∈ text, c ∈ alpha) :
     ∀ c ∈ fwdCodes alpha q text, c < 2 ^ (bitsFor alpha.length * q) := by
